@@ -101,3 +101,129 @@ Example float_retyped_exact_refuted :
 Proof.
   eexists; eexists. split; [vm_compute; reflexivity|]. split; [vm_compute; reflexivity|]. split; reflexivity.
 Qed.
+
+(* ---- documents OUTSIDE [wf_file]: what the property's "identifiers and strings expressible in the DBC
+   grammar" leaves out.  For each exclusion a smallest document, and by evaluation of the model: the text
+   [write] makes of it is NOT read back as (the normal form of) the document - rejected, or read as another
+   document.  So each condition of [wf_file] is needed by [parse_write], none is a convenience. ---- *)
+Definition doc_of (ns : option (list str)) (bu : list str) (msgs : list message) (evs : list env_var)
+                  (cms : list comment) (ads : list attribute) (xms : list ext_mux) : file :=
+  {| f_version := s2l "v"; f_ns := ns; f_bs := Some {| bt_baud := 0; bt_reg1 := 0; bt_reg2 := 0 |};
+     f_bu := Some bu; f_vts := []; f_msgs := msgs; f_txs := []; f_evs := evs; f_eds := []; f_sts := [];
+     f_cms := cms; f_ads := ads; f_afs := []; f_avs := []; f_ves := []; f_srs := []; f_sgs := []; f_svs := [];
+     f_xms := xms |}.
+Definition round_trips (f : file) : Prop :=
+  parse no_ud toy_prs false (write toy_fmt false f) = OOk (norm_file toy_fmt false f).
+
+Definition sig_with (name : string) (rcv : list str) : signal :=
+  {| sg_name := s2l name; sg_multiplexor := false; sg_mux := None; sg_start := 0; sg_size := 8;
+     sg_order := LittleEndian; sg_vtype := Unsigned; sg_factor := 1; sg_offset := 0; sg_min := 0; sg_max := 0;
+     sg_unit := []; sg_receivers := rcv |}.
+Definition msg_with (s : signal) : message :=
+  {| ms_id := 1; ms_name := s2l "msg"; ms_size := 8; ms_tx := s2l "A"; ms_signals := [s] |}.
+
+(* the same shape INSIDE wf_file does round-trip (so the failures below are due to the one excluded feature) *)
+Example inside_round_trips :
+  round_trips (doc_of (Some []) [s2l "A"; s2l "x_"] [msg_with (sig_with "s" [s2l "A"])] []
+                      [ {| cm_ref := ORGeneral; cm_text := s2l "t" |} ]
+                      [ {| ad_kind := AKGeneral; ad_name := s2l "a_b"; ad_type := ATString |} ]
+                      [ {| xm_id := 1; xm_muxed := s2l "s"; xm_muxor := s2l "s"; xm_ranges := [(0, 1)] |} ]).
+Proof. vm_compute. reflexivity. Qed.
+
+(* 1. an identifier that starts with '_' (scanner.go: an identifier starts with a letter) *)
+Example ident_leading_underscore_refuted : ~ round_trips (doc_of (Some []) [s2l "_x"] [] [] [] [] []).
+Proof. vm_compute. intro H. discriminate H. Qed.
+(* 2. an identifier shaped like a multiplexer indicator ("m1", "M", "m2M": token kind mux, not ident) *)
+Example ident_mux_shaped_refuted :
+  ~ round_trips (doc_of (Some []) [s2l "m1"] [] [] [] [] []) /\ ~ round_trips (doc_of (Some []) [s2l "M"] [] [] [] [] []).
+Proof. split; vm_compute; intro H; discriminate H. Qed.
+(* 3. an identifier that is a keyword *)
+Example ident_keyword_refuted : ~ round_trips (doc_of (Some []) [s2l "BO_"] [] [] [] [] []).
+Proof. vm_compute. intro H. discriminate H. Qed.
+(* 4. empty lists where the grammar wants at least one element: receivers of a signal, access nodes of an
+      environment variable, ranges of an extended multiplexing entry *)
+Example empty_receivers_refuted : ~ round_trips (doc_of (Some []) [s2l "A"] [msg_with (sig_with "s" [])] [] [] [] []).
+Proof. vm_compute. intro H. discriminate H. Qed.
+Example empty_access_nodes_refuted :
+  ~ round_trips (doc_of (Some []) [s2l "A"] []
+       [ {| ev_name := s2l "e"; ev_ty := EvInt; ev_min := 0; ev_max := 0; ev_unit := []; ev_init := 0; ev_id := 0;
+            ev_access := 0; ev_nodes := [] |} ] [] [] []).
+Proof. vm_compute. intro H. discriminate H. Qed.
+Example empty_ranges_refuted :
+  ~ round_trips (doc_of (Some []) [s2l "A"] [] [] [] []
+       [ {| xm_id := 1; xm_muxed := s2l "a"; xm_muxor := s2l "b"; xm_ranges := [] |} ]).
+Proof. vm_compute. intro H. discriminate H. Qed.
+(* 5. an NS_ symbol that is not in the parser's table *)
+Example foreign_new_symbol_refuted : ~ round_trips (doc_of (Some [s2l "FOO_"]) [s2l "A"] [] [] [] [] []).
+Proof. vm_compute. intro H. discriminate H. Qed.
+(* 6. a blank inside an attribute name (parser.go rejects it in BA_DEF_) *)
+Example blank_in_attribute_name_refuted :
+  ~ round_trips (doc_of (Some []) [s2l "A"] [] [] [] [ {| ad_kind := AKGeneral; ad_name := s2l "a b"; ad_type := ATString |} ] []).
+Proof. vm_compute. intro H. discriminate H. Qed.
+(* 7. a string holding a quote or a NUL character (the scanner's end-of-input character) *)
+Example quote_or_nul_in_string_refuted :
+  ~ round_trips (doc_of (Some []) [s2l "A"] [] [] [ {| cm_ref := ORGeneral; cm_text := [97; 34; 98] |} ] [] []) /\
+  ~ round_trips (doc_of (Some []) [s2l "A"] [] [] [ {| cm_ref := ORGeneral; cm_text := [97; 0; 98] |} ] [] []).
+Proof. split; vm_compute; intro H; discriminate H. Qed.
+
+(* the same, with the documents named (for coq/Properties/C08.v) *)
+Definition doc_inside : file :=
+  doc_of (Some []) [s2l "A"; s2l "x_"] [msg_with (sig_with "s" [s2l "A"])] []
+         [ {| cm_ref := ORGeneral; cm_text := s2l "t" |} ]
+         [ {| ad_kind := AKGeneral; ad_name := s2l "a_b"; ad_type := ATString |} ]
+         [ {| xm_id := 1; xm_muxed := s2l "s"; xm_muxor := s2l "s"; xm_ranges := [(0, 1)] |} ].
+Definition doc_ident_underscore : file := doc_of (Some []) [s2l "_x"] [] [] [] [] [].
+Definition doc_ident_m1 : file := doc_of (Some []) [s2l "m1"] [] [] [] [] [].
+Definition doc_ident_M : file := doc_of (Some []) [s2l "M"] [] [] [] [] [].
+Definition doc_ident_keyword : file := doc_of (Some []) [s2l "BO_"] [] [] [] [] [].
+Definition doc_no_receivers : file := doc_of (Some []) [s2l "A"] [msg_with (sig_with "s" [])] [] [] [] [].
+Definition doc_no_access_nodes : file :=
+  doc_of (Some []) [s2l "A"] []
+       [ {| ev_name := s2l "e"; ev_ty := EvInt; ev_min := 0; ev_max := 0; ev_unit := []; ev_init := 0; ev_id := 0;
+            ev_access := 0; ev_nodes := [] |} ] [] [] [].
+Definition doc_no_ranges : file :=
+  doc_of (Some []) [s2l "A"] [] [] [] [] [ {| xm_id := 1; xm_muxed := s2l "a"; xm_muxor := s2l "b"; xm_ranges := [] |} ].
+Definition doc_foreign_symbol : file := doc_of (Some [s2l "FOO_"]) [s2l "A"] [] [] [] [] [].
+Definition doc_blank_attr_name : file :=
+  doc_of (Some []) [s2l "A"] [] [] [] [ {| ad_kind := AKGeneral; ad_name := s2l "a b"; ad_type := ATString |} ] [].
+Definition doc_quote_in_string : file := doc_of (Some []) [s2l "A"] [] [] [ {| cm_ref := ORGeneral; cm_text := [97; 34; 98] |} ] [] [].
+Definition doc_nul_in_string : file := doc_of (Some []) [s2l "A"] [] [] [ {| cm_ref := ORGeneral; cm_text := [97; 0; 98] |} ] [] [].
+
+Example wf_file_exclusions_refuted :
+  round_trips doc_inside /\
+  ~ round_trips doc_ident_underscore /\ ~ round_trips doc_ident_m1 /\ ~ round_trips doc_ident_M /\
+  ~ round_trips doc_ident_keyword /\ ~ round_trips doc_no_receivers /\ ~ round_trips doc_no_access_nodes /\
+  ~ round_trips doc_no_ranges /\ ~ round_trips doc_foreign_symbol /\ ~ round_trips doc_blank_attr_name /\
+  ~ round_trips doc_quote_in_string /\ ~ round_trips doc_nul_in_string.
+Proof.
+  split; [vm_compute; reflexivity|].
+  repeat split; vm_compute; intro H; discriminate H.
+Qed.
+
+Definition neg_zero_bits : N := 9223372036854775808.
+Definition two_pow_60_bits : N := 4877398396442247168.
+
+(* 8. floats.  A FLOAT attribute value whose text has no fraction is read back as INT ([float_retyped_exact_refuted]);
+      two special cases of that re-typing, with an oracle that prints like strconv on the two values involved:
+      the negative zero (bit pattern 2^63) is printed "-0" and comes back as the INT 0 - equal as numbers
+      (IEEE: -0.0 == 0.0), the sign of the zero is gone;  the double 2^60 is printed by its SHORTEST decimal
+      1152921504606847000 and comes back as that INT - the same double when converted back, another integer. *)
+Definition strconv_like_fmt (b : N) : str :=
+  if b =? 9223372036854775808 then s2l "-0"                         (* -0.0 *)
+  else if b =? 4877398396442247168 then s2l "1152921504606847000"    (* 2^60 *)
+  else toy_fmt b.
+Definition with_value (v : attr_val) : file :=
+  {| f_version := s2l "v"; f_ns := Some []; f_bs := Some {| bt_baud := 0; bt_reg1 := 0; bt_reg2 := 0 |};
+     f_bu := Some []; f_vts := []; f_msgs := []; f_txs := []; f_evs := []; f_eds := []; f_sts := [];
+     f_cms := []; f_ads := []; f_afs := []; f_avs := [ {| av_name := s2l "x"; av_ref := ORGeneral; av_value := v |} ];
+     f_ves := []; f_srs := []; f_sgs := []; f_svs := []; f_xms := [] |}.
+Example negative_zero_and_large_float_retyped :
+  (exists f', parse no_ud toy_prs false (write strconv_like_fmt false (with_value (AVFloat neg_zero_bits))) = OOk f'
+              /\ map av_value (f_avs f') = [AVInt 0%Z]) /\
+  (exists f', parse no_ud toy_prs false (write strconv_like_fmt false (with_value (AVFloat two_pow_60_bits))) = OOk f'
+              /\ map av_value (f_avs f') = [AVInt 1152921504606847000%Z] /\ (1152921504606847000 <> 2 ^ 60)%Z).
+Proof.
+  split.
+  - eexists. split; [vm_compute; reflexivity|reflexivity].
+  - eexists. split; [vm_compute; reflexivity|]. split; [reflexivity|]. vm_compute. discriminate.
+Qed.
